@@ -67,8 +67,9 @@ pub mod {name} {{
 """ + DRIVER_TAIL.format(loads=loads, run="self.go()", dumps=dumps)
 
 
-def module_include(name, p, pos):
-    """part of the rules in an `ascent_source!`, spliced by `include_source!` at the first / middle / last position"""
+def module_include(name, p, pos, attrs=()):
+    """part of the rules in an `ascent_source!`, spliced by `include_source!` at the first / middle / last position
+    (`attrs`: program-level inner attributes in front of everything; they must survive the re-invocation through the included macro)"""
     nm = eng.Names()
     n = len(p["rules"])
     k = max(1, n // 2)
@@ -78,8 +79,8 @@ def module_include(name, p, pos):
     restl = [eng.rs_rule(p, ru, nm) for ru in rest]
     cut = {"first": 0, "middle": len(restl) // 2, "last": len(restl)}[pos]
     inner = restl[:cut] + [f"include_source!({name}_src);"] + restl[cut:]
-    body = "\n      ".join(["pub struct Prog;"] + eng.rs_decls(p, nm) + inner)
-    base = eng.rs_module(name, p)
+    body = "\n      ".join([f"#![{a}]" for a in attrs] + ["pub struct Prog;"] + eng.rs_decls(p, nm) + inner)
+    base = eng.rs_module(name, p, attrs=attrs)
     start = base.index("ascent! {")
     end = base.index("pub struct Inst")
     return base[:start] + f"ascent_source! {{ {name}_src:\n      {src}\n   }}\n   ascent! {{\n      {body}\n   }}\n   " + base[end:]
@@ -134,6 +135,9 @@ def build(rng, tier):
                     (f"{pid}_gen", module_generic(f"{pid}_gen", p), "generic-struct")]
         for pos in ("first", "middle", "last"):
             variants.append((f"{pid}_inc{pos}", module_include(f"{pid}_inc{pos}", p, pos), f"include_source-{pos}"))
+        # include_source! together with program-level inner attributes (the driver of this variant calls run_timeout, which exists only if
+        # `#![generate_run_timeout]` survived the re-invocation)
+        variants.append((f"{pid}_incattr", module_include(f"{pid}_incattr", p, "middle", attrs=("measure_rule_times", "generate_run_timeout")), "include_source+inner-attributes"))
         variants.append((f"{pid}_init", module_init(f"{pid}_init", p, fixed_inp), "initialised"))
         for vid, text, kind in variants:
             progs[vid] = p; mods.append((vid, text))
